@@ -1,1 +1,52 @@
-// harness for rs/anda_kip/src/parser/common.rs (mounted by #[cfg(kani)] hook)
+// @module parser::common::verif_kani
+// Kani harnesses for rs/anda_kip/src/parser/common.rs — property C16: is_protected_field, the
+// engine-owned name table every assignment / unset block is checked against.
+// Oracle: the engine-owned names of the property statement and SPECIFICATION.md 6.3 (system,
+// governance, space identity and sequence), compared bytewise — not PROTECTED_FIELDS itself.
+use super::*;
+
+fn eq(a: &[u8], b: &[u8]) -> bool {
+    if a.len() != b.len() {
+        return false;
+    }
+    let mut i = 0;
+    while i < a.len() {
+        if a[i] != b[i] {
+            return false;
+        }
+        i += 1;
+    }
+    true
+}
+fn engine_owned(name: &[u8]) -> bool {
+    eq(name, b"_system") || eq(name, b"governance") || eq(name, b"space_id") || eq(name, b"space_seq")
+}
+
+macro_rules! protected_len {
+    ($name:ident, $l:expr) => {
+        #[kani::proof]
+        #[kani::unwind(13)]
+        fn $name() {
+            let b: [u8; $l] = kani::any();
+            let mut i = 0;
+            while i < $l {
+                kani::assume(b[i] >= 0x20 && b[i] < 0x7f);
+                i += 1;
+            }
+            let s = unsafe { std::str::from_utf8_unchecked(&b) };
+            let got = is_protected_field(s);
+            assert!(got == engine_owned(&b), "a name is refused as engine-owned iff it is exactly one of _system / governance / space_id / space_seq (no case folding, no prefix match)");
+            kani::cover!(got || $l == 6 || $l == 11, "a protected name of this length");
+            kani::cover!(!got, "an ordinary name of this length");
+        }
+    };
+}
+// @check id=C16 tier=quick cap=600 role=protected_field_table harness=c16_protected_len6,c16_protected_len7,c16_protected_len8,c16_protected_len9,c16_protected_len10,c16_protected_len11
+// @fns parser::common::is_protected_field
+// @bound every printable-ASCII name of length 6, 7, 8, 9, 10 and 11 (symbolic bytes): all case / punctuation variants of the engine-owned names are inside the bound
+protected_len!(c16_protected_len6, 6);
+protected_len!(c16_protected_len7, 7);
+protected_len!(c16_protected_len8, 8);
+protected_len!(c16_protected_len9, 9);
+protected_len!(c16_protected_len10, 10);
+protected_len!(c16_protected_len11, 11);
